@@ -365,6 +365,24 @@ fn pair_ok(d: &Dim, v: u64) -> bool {
     }
 }
 
+/// Base and all single deviations of an opcode's well-formed request (used by the async engine).
+pub fn c02_dev1_cases(op: u64, thorough: bool) -> Vec<(String, Case)> {
+    let dims = dims_of(op);
+    let base = ops::base_case(op);
+    let mut out = vec![(format!("{}:base", ops::op_name(op)), base.clone())];
+    for d in &dims {
+        for v in dim_alts(d, thorough) {
+            if matches!(d, Dim::Payload) && v > (128 << 10) && !thorough {
+                continue;
+            }
+            let mut c = base.clone();
+            apply(&mut c, d, v);
+            out.push((format!("{}:{:?}={}", ops::op_name(op), d, v), c));
+        }
+    }
+    out
+}
+
 pub fn replay_c02(_args: &Args, _case: &Value) -> i32 {
     0
 }
@@ -404,20 +422,34 @@ pub enum Script {
     OkBig,
     Enoent,
     KindOther,
+    /// an error without OS code, of one of the kinds the error mapping names
+    Kind(std::io::ErrorKind),
 }
 
 impl Script {
     pub const ALL: [Script; 4] = [Script::OkSmall, Script::OkBig, Script::Enoent, Script::KindOther];
+    pub const KINDS: [Script; 5] = [
+        Script::Kind(std::io::ErrorKind::NotFound),
+        Script::Kind(std::io::ErrorKind::PermissionDenied),
+        Script::Kind(std::io::ErrorKind::AlreadyExists),
+        Script::Kind(std::io::ErrorKind::WouldBlock),
+        Script::Kind(std::io::ErrorKind::Interrupted),
+    ];
     pub fn name(&self) -> &'static str {
         match self {
             Script::OkSmall => "ok-small",
             Script::OkBig => "ok-big",
             Script::Enoent => "err-enoent",
             Script::KindOther => "err-kind-other",
+            Script::Kind(std::io::ErrorKind::NotFound) => "err-kind-notfound",
+            Script::Kind(std::io::ErrorKind::PermissionDenied) => "err-kind-permissiondenied",
+            Script::Kind(std::io::ErrorKind::AlreadyExists) => "err-kind-alreadyexists",
+            Script::Kind(std::io::ErrorKind::WouldBlock) => "err-kind-wouldblock",
+            Script::Kind(_) => "err-kind-interrupted",
         }
     }
     pub fn from_name(s: &str) -> Script {
-        *Script::ALL.iter().find(|x| x.name() == s).unwrap()
+        *Script::ALL.iter().chain(Script::KINDS.iter()).find(|x| x.name() == s).unwrap()
     }
     pub fn answer(&self) -> Answer {
         use crate::scriptfs::{DirAns, Fail};
@@ -443,6 +475,7 @@ impl Script {
             }
             Script::Enoent => a.fail = Some(Fail::Errno(libc::ENOENT)),
             Script::KindOther => a.fail = Some(Fail::Kind(std::io::ErrorKind::Other)),
+            Script::Kind(kd) => a.fail = Some(Fail::Kind(*kd)),
         }
         a
     }
